@@ -207,3 +207,147 @@ func JSON(m map[string]any) string {
 	b, _ := json.Marshal(m)
 	return string(b)
 }
+
+// RouteBody maps "METHOD /path" to the request template the route's handler decodes its body
+// into (nil entry = the handler never decodes the body). Derived from the sources: the handler
+// registered for the pattern, the variable passed to decodeJSON / (*json.Decoder).Decode inside
+// it, and that variable's declared struct type.
+func RouteBodies(repo string) (map[string]*Template, error) {
+	files, _ := filepath.Glob(filepath.Join(repo, "internal", "server", "*.go"))
+	fset := token.NewFileSet()
+	var parsed []*ast.File
+	for _, f := range files {
+		if strings.HasSuffix(f, "_test.go") {
+			continue
+		}
+		af, err := parser.ParseFile(fset, f, nil, 0)
+		if err != nil {
+			return nil, err
+		}
+		parsed = append(parsed, af)
+	}
+	named := map[string]*ast.StructType{}
+	funcs := map[string]*ast.FuncDecl{}
+	for _, af := range parsed {
+		for _, d := range af.Decls {
+			switch x := d.(type) {
+			case *ast.GenDecl:
+				for _, sp := range x.Specs {
+					if ts, ok := sp.(*ast.TypeSpec); ok {
+						if st, ok := ts.Type.(*ast.StructType); ok {
+							named[ts.Name.Name] = st
+						}
+					}
+				}
+			case *ast.FuncDecl:
+				funcs[x.Name.Name] = x
+			}
+		}
+	}
+	toTemplate := func(st *ast.StructType, where string) *Template {
+		t := &Template{Where: where}
+		for _, fl := range st.Fields.List {
+			if fl.Tag == nil {
+				continue
+			}
+			tag := reflect.StructTag(strings.Trim(fl.Tag.Value, "`")).Get("json")
+			name := strings.Split(tag, ",")[0]
+			if name == "" || name == "-" {
+				continue
+			}
+			t.Fields = append(t.Fields, Field{Name: name, Type: exprString(fl.Type)})
+		}
+		return t
+	}
+	bodyOf := func(fn *ast.FuncDecl) *Template {
+		if fn == nil || fn.Body == nil {
+			return nil
+		}
+		varTypes := map[string]ast.Expr{}
+		ast.Inspect(fn.Body, func(n ast.Node) bool {
+			switch x := n.(type) {
+			case *ast.ValueSpec:
+				for _, nm := range x.Names {
+					if x.Type != nil {
+						varTypes[nm.Name] = x.Type
+					}
+				}
+			case *ast.AssignStmt:
+				if len(x.Lhs) == 1 && len(x.Rhs) == 1 {
+					if id, ok := x.Lhs[0].(*ast.Ident); ok {
+						if cl, ok := x.Rhs[0].(*ast.CompositeLit); ok && cl.Type != nil {
+							varTypes[id.Name] = cl.Type
+						}
+					}
+				}
+			}
+			return true
+		})
+		var result *Template
+		ast.Inspect(fn.Body, func(n ast.Node) bool {
+			call, ok := n.(*ast.CallExpr)
+			if !ok || result != nil {
+				return true
+			}
+			fname := ""
+			switch f := call.Fun.(type) {
+			case *ast.SelectorExpr:
+				fname = f.Sel.Name
+			case *ast.Ident:
+				fname = f.Name
+			}
+			// any decoding helper: decodeJSON, decodeBody, (*json.Decoder).Decode, json.Unmarshal, ...
+			if !(strings.Contains(strings.ToLower(fname), "decode") || fname == "Unmarshal") || len(call.Args) == 0 {
+				return true
+			}
+			arg := call.Args[len(call.Args)-1]
+			un, ok := arg.(*ast.UnaryExpr)
+			if !ok {
+				return true
+			}
+			id, ok := un.X.(*ast.Ident)
+			if !ok {
+				return true
+			}
+			switch tp := varTypes[id.Name].(type) {
+			case *ast.Ident:
+				if st, ok := named[tp.Name]; ok {
+					result = toTemplate(st, fn.Name.Name+":"+tp.Name)
+				}
+			case *ast.StructType:
+				result = toTemplate(tp, fn.Name.Name+":inline")
+			}
+			return true
+		})
+		return result
+	}
+	out := map[string]*Template{}
+	for _, af := range parsed {
+		ast.Inspect(af, func(n ast.Node) bool {
+			call, ok := n.(*ast.CallExpr)
+			if !ok || len(call.Args) != 2 {
+				return true
+			}
+			sel, ok := call.Fun.(*ast.SelectorExpr)
+			if !ok || (sel.Sel.Name != "HandleFunc" && sel.Sel.Name != "Handle") {
+				return true
+			}
+			lit, ok := call.Args[0].(*ast.BasicLit)
+			if !ok {
+				return true
+			}
+			pat := strings.Trim(lit.Value, `"`)
+			var hname string
+			if hs, ok := call.Args[1].(*ast.SelectorExpr); ok {
+				hname = hs.Sel.Name
+			}
+			key := pat
+			if !strings.Contains(pat, " ") {
+				key = " " + pat
+			}
+			out[key] = bodyOf(funcs[hname])
+			return true
+		})
+	}
+	return out, nil
+}
